@@ -57,10 +57,10 @@ Proof.
   rewrite (call_first (r_cfg r) (lookup r) (r_now r) (r_dealer r) s q opts proc args kw orc rg meta_id (reg_next rg) (r_meta r)
                       Hm Hne Ha Hb Hsel Hl).
   unfold call_feature_refused, call_ppt_abort, call_ppt_refused, call_disclose_refused_cond.
-  rewrite Hprog, Hppt, Hd. cbn [andb negb].
+  unfold reg_discloses. rewrite Hprog, Hppt, Hd. change (nmem meta_id [meta_id]) with true. cbn [andb negb].
   set (D := call_first_state (r_now r) (r_dealer r) (s_id s, q) opts rg meta_id (reg_next rg) (r_meta r)).
   set (iv := idgen_next (s_invgen (r_meta r))).
-  set (det := call_details (r_cfg r) s (r_meta r) rg opts proc).
+  set (det := call_details (r_cfg r) s (r_meta r) meta_id rg opts proc).
   unfold update_session. cbn [s_id set_invgen]. rewrite (i_meta r I). change (meta_id =? meta_id) with true. cbv iota.
   set (r1 := r_set_meta (r_set_dealer r D) (set_invgen (r_meta r) iv)).
   exists r1, det. split; [reflexivity|]. split; [reflexivity|]. split; [reflexivity|].
